@@ -98,7 +98,8 @@ def life_plans(tier):
             dict(name="share4", mode="alphabet", theme="share", objs=[1, 2], depth=4, cap=12000),
             dict(name="story4", mode="alphabet", theme="story", objs=[1], depth=4, cap=12000),
             dict(name="item4", mode="alphabet", theme="item", objs=[1], depth=4, cap=12000),
-            dict(name="all4", mode="alphabet", theme="all", objs=[1], depth=4, cap=8000),
+            # (length 4 over the FULL alphabet is a million behaviours of tens of kilobytes each: only the themed alphabets
+            #  are enumerated at that length)
             dict(name="random", mode="random", objs=[1, 2], depth=12, num=400, cap=2500)]
 
 
